@@ -195,6 +195,9 @@ def validate_registry_header(
 def check_crit_header(header: Header) -> None:
     # check crit header
     if "crit" in header:
-        for k in header["crit"]:
+        crit = header["crit"]
+        if not isinstance(crit, list) or not all(isinstance(k, str) for k in crit):
+            raise ValueError('"crit" in header must be a list[str]')
+        for k in crit:
             if k not in header:
                 raise ValueError(f'"{k}" is a critical header')
